@@ -1273,6 +1273,16 @@ class Interp:
                 raise RaiseSig('TypeError', ('slice indices must be integers',), e)
             if m == 'split' and all(isinstance(a, str) for a in args):
                 return AList(base.split(*args))
+            if m in ('splitlines', 'split', 'rsplit') and all(a is None or isinstance(a, (str, int)) for a in args):
+                return AList(getattr(base, m)(*args))
+            if m in ('partition', 'rpartition') and all(isinstance(a, str) for a in args):
+                return tuple(getattr(base, m)(*args))
+            if m in ('zfill', 'ljust', 'rjust', 'center', 'title', 'capitalize', 'swapcase', 'casefold', 'isdigit', 'isalpha', 'isalnum', 'isspace', 'isupper', 'islower',
+                     'isnumeric', 'isdecimal', 'isidentifier', 'expandtabs') and all(isinstance(a, (str, int)) and not isinstance(a, bool) for a in args):
+                try:
+                    return getattr(base, m)(*args)
+                except (TypeError, ValueError) as exc:
+                    raise RaiseSig(type(exc).__name__, (str(exc),), e)
         self.bad(e, f'method call .{m}() on {type(base).__name__}')
 
     def host_regex(self, rx, node):
